@@ -745,6 +745,7 @@ direct:
 	callerScope := j.caller.Pkg.Types.Scope().Innermost(j.call.Pos())
 	shadow := false
 	shadowName := ""
+	usedFree := map[string]bool{} // package names and package-level names the helper's body refers to
 	needImports := map[string]string{}
 	defer func() {
 		// imports are added even if a later step fails; unused imports would break the
@@ -761,6 +762,7 @@ direct:
 			continue
 		}
 		if o.Parent() == o.Pkg().Scope() || isPkgName(o) {
+			usedFree[oi.Name] = true
 			if callerScope != nil {
 				_, found := callerScope.LookupParent(oi.Name, j.call.Pos())
 				if pn, isPN := o.(*types.PkgName); isPN {
@@ -1102,6 +1104,11 @@ direct:
 			holder = path[len(path)-3]
 		}
 		var decls []ast.Stmt
+		type lhsFix struct {
+			i         int
+			tmp, name string
+		}
+		var lhsOut []lhsFix
 		if st.Tok == token.DEFINE {
 			// the new variables need declarations with explicit types
 			orig := p.origAssign(j)
@@ -1110,12 +1117,28 @@ direct:
 				return false
 			}
 			oinfo := j.caller.Pkg.TypesInfo
-			for _, l := range orig.Lhs {
+			for i, l := range orig.Lhs {
 				id, ok := l.(*ast.Ident)
 				if !ok || id.Name == "_" {
 					continue
 				}
 				if obj := oinfo.Defs[id]; obj != nil {
+					if usedFree[id.Name] && i < len(st.Lhs) {
+						// `runner, err := c.launch()` where the helper's body names the
+						// package runner: the new local must not be in scope inside the
+						// inlined body, so the body fills a temporary and the local is
+						// defined from it afterwards
+						ts := p.typeText(j.caller, obj.Type())
+						te, err := parser.ParseExpr(ts)
+						if ts == "" || err != nil {
+							inlineWhy = "assignment form: step 4b"
+							return false
+						}
+						tmp := id.Name + "_r" + suffix
+						decls = append(decls, &ast.DeclStmt{Decl: &ast.GenDecl{Tok: token.VAR, Specs: []ast.Spec{&ast.ValueSpec{Names: []*ast.Ident{ast.NewIdent(tmp)}, Type: te}}}})
+						lhsOut = append(lhsOut, lhsFix{i, tmp, id.Name})
+						continue
+					}
 					ts := p.typeText(j.caller, obj.Type())
 					if ts == "" {
 						inlineWhy = "assignment form: step 4"
@@ -1134,11 +1157,17 @@ direct:
 			inlineWhy = "assignment form: step 6"
 			return false
 		}
+		var post []ast.Stmt
+		for _, lf := range lhsOut {
+			st.Lhs[lf.i] = ast.NewIdent(lf.tmp)
+			post = append(post, &ast.AssignStmt{Lhs: []ast.Expr{ast.NewIdent(lf.name)}, Tok: token.DEFINE, Rhs: []ast.Expr{ast.NewIdent(lf.tmp)}})
+		}
 		if !rewriteReturns(st.Lhs, st.Tok == token.DEFINE) {
 			inlineWhy = "assignment form: step 7"
 			return false
 		}
 		inl := append(decls, wrap()...)
+		inl = append(inl, post...)
 		if ifs, ok := holder.(*ast.IfStmt); ok && ifs.Init == ast.Stmt(st) {
 			// if x := H(); cond {...}  ->  { decls; inlined; if cond {...} }
 			ifs.Init = nil
